@@ -28,8 +28,14 @@ def generate(rng, tier, index):
     for _ in range(rng.randrange(2, 16)):
         r = rng.randrange(W)
         k = rng.random()
-        if k < 0.5:
+        if k < 0.36:
             ops.append(["step", r])
+        elif k < 0.43:
+            ops.append(["open", r])  # iter(sampler), consumed later: other operations run in between
+        elif k < 0.47:
+            ops.append(["openpeek", r, rng.randrange(0, 8)])
+        elif k < 0.52:
+            ops.append(["drain", r, rng.choice([None, None, rng.randrange(0, 5)])])  # None: to the end; k: k items, then abandoned
         elif k < 0.62:
             ops.append(["restart", r])
         elif k < 0.74:
@@ -92,9 +98,43 @@ def execute(sc):
             if sc["base_seed"] is not None and seed != sc["base_seed"]:
                 res.violate("seed.not-kept", f"base_seed {sc['base_seed']} became {seed}")
                 return res
-        for op in sc["ops"]:
+        held = {}  # rank -> [(epoch, iterator, expected length or None)]
+        ops = list(sc["ops"]) + [["drain", r, None] for r in range(world) for _ in range(4)]
+        for op in ops:
             r = op[1] % world if op[0] != "perturb" else None
-            if op[0] == "step":
+            if op[0] == "open":
+                with ctx(r):
+                    s = samplers[r]
+                    e = s.epoch
+                    L = len(s)
+                    held.setdefault(r, []).append((e, iter(s), L))
+                res.bump("fault.iterator_held_open")
+            elif op[0] == "openpeek":
+                with ctx(r):
+                    held.setdefault(r, []).append((op[2], iter(samplers[r].get_samples_for_epoch(op[2])), None))
+                res.bump("fault.iterator_held_open")
+            elif op[0] == "drain":
+                if not held.get(r):
+                    continue
+                e, it, L = held[r].pop(0)
+                with ctx(r):
+                    if op[2] is None:
+                        lst = [int(x) for x in it]
+                        if L is not None and L != len(lst):
+                            res.violate("len.mismatch", f"rank {r} epoch {e}: len() = {L} but {len(lst)} indices yielded by an iterator that was held open", mode=mode)
+                            return res
+                        table.setdefault((r, e), []).append(lst)
+                        res.log.add("drain", r, e, lst)
+                        res.steps += 1
+                    else:
+                        part = []
+                        for x in it:
+                            if len(part) >= op[2]:
+                                break
+                            part.append(int(x))
+                        table.setdefault((r, e, "prefix"), []).append(part)
+                        res.bump("fault.iterator_abandoned")
+            elif op[0] == "step":
                 with ctx(r):
                     s = samplers[r]
                     e = s.epoch
@@ -131,6 +171,10 @@ def execute(sc):
                 perturb_global_rngs(op[1])
                 res.bump("fault.rng_perturbed")
         # ---- history oracle ------------------------------------------------------------
+        prefixes = {k: v for k, v in table.items() if len(k) == 3}
+        table = {k: v for k, v in table.items() if len(k) == 2}
+        for (r, e, _) in prefixes:
+            table.setdefault((r, e), [])
         epochs = sorted({e for (_, e) in table})
         for e in epochs:
             # fill in: every rank, reached by *starting at* that epoch
@@ -140,6 +184,10 @@ def execute(sc):
                     fresh = make(sc, e, seed)
                     lst = [int(x) for x in iter(fresh)]
                     full_r = [int(x) for x in fresh.get_samples_for_epoch_ignoring_distributed(e)]
+                for part in prefixes.get((r, e, "prefix"), []):
+                    if part != lst[: len(part)]:
+                        res.violate("repro.differs", f"rank {r} epoch {e}: the first {len(part)} indices of an abandoned iterator {part} are not a prefix of the epoch's order {lst}", kind=sc["kind"])
+                        return res
                 for other in table.get((r, e), []):
                     if other != lst:
                         res.violate("repro.differs", f"rank {r} epoch {e}: list reached by iterating differs from the one reached by starting at the epoch", kind=sc["kind"])
@@ -233,8 +281,8 @@ BUDGET = {"quick": 80000, "thorough": 400000}
 WALL_CAP = {"quick": 240, "thorough": 3000}
 RULE = (
     "run i derives (N in 0..40 biased to multiples of W and W+-1, W in 1..4, uneven mode, sampler kind, base seed given/unset, per-rank init_epoch, "
-    "distributed or not) and a 2..15-step interleaving of per-rank operations STEP / RESTART (rank crash: new sampler at its next epoch) / JUMP (epoch "
-    "setter) / PEEK / PERTURB_RNG from sha256(VERIF_SEED/C13/i). One evaluation = one interleaving executed under SimDist, then the history oracle over "
+    "distributed or not) and a 2..15-step interleaving of per-rank operations STEP / OPEN + DRAIN (an epoch iterator held open while other operations run, "
+    "drained later fully or abandoned after k items) / RESTART (rank crash: new sampler at its next epoch) / JUMP (epoch setter) / PEEK / PERTURB_RNG from sha256(VERIF_SEED/C13/i). One evaluation = one interleaving executed under SimDist, then the history oracle over "
     "the (rank, epoch) -> list table. Non-trivial = N >= 2 and at least one epoch recorded (or a mandated raise observed); distinct = scenario hash."
 )
 STATE_MEASURE = "distinct (N mod W, mode, kind, table size) classes checked by the partition oracle"
